@@ -211,9 +211,9 @@ func runC16Struct(c *Ctx, wl *walkLayers) {
 				}
 				upd++
 				k := keyOf(e.Args[1])
-				none, okN := e.PC["eq(0,len(obj))"]
+				lens := possibleInts(e.PC, "len(obj)", []int64{0, 1, 2, 3})
 				switch {
-				case okN && none == 1:
+				case len(lens) == 1 && lens[0]:
 					if !strings.HasPrefix(k, "g:valid.") {
 						bad = append(bad, "with no object given the rule set is not stored under the unscoped sentinel but under "+shorten(k, 60))
 					}
